@@ -316,8 +316,17 @@ def dispatch(run, tier):
         if isinstance(node, _ast.Attribute) and isinstance(node.value, _ast.Attribute) and node.value.attr == "aten":
             named.add(node.attr)
     opnames = ["some_other_op"] + sorted(named - {"detach", "_to_copy", "to"})
-    for bits, opname, second in [(b, o, sk) for b in (2, 4) for o in opnames for sk in ("plain", "packed")]:
-        inst = {"bits": bits, "lemma": "dispatch", "op": opname, "second": second}
+    # ops the file names whose further arguments are integers (dim, index / start, end): every dimension spelling, also negative ones
+    INT_ARGS = {"select": [(0, 0), (1, 0), (-1, 0), (-2, 0)], "slice": [(0, 0, 1), (1, 0, 1), (-1, 0, 1), (-2, 0, 1)], "narrow": [(0, 0, 1), (-2, 0, 1)]}
+    combos = []
+    for b in (2, 4):
+        for o in opnames:
+            if o in INT_ARGS:
+                combos += [(b, o, ("ints",) + tuple(a)) for a in INT_ARGS[o]]
+            else:
+                combos += [(b, o, sk) for sk in ("plain", "packed")]
+    for bits, opname, second in combos:
+        inst = {"bits": bits, "lemma": "dispatch", "op": opname, "second": str(second)}
         run.count_instance(**inst)
         E, spec = make_engine(run, "ok")
         ds, dpos = lib.dims("d", 2)
@@ -333,17 +342,29 @@ def prog(t, other, bits, OP, pack_other):
         other = PackedTensor.pack(other, bits)
     r = PackedTensor.__torch_dispatch__(OP, (PackedTensor,), (p, other), {"alpha": p})
     return p, r
+""" if not isinstance(second, tuple) else """
+def prog(t, ints, bits, OP, pack_other):
+    p = PackedTensor.pack(t, bits)
+    r = PackedTensor.__torch_dispatch__(OP, (PackedTensor,), (p,) + tuple(ints), {})
+    return p, (r, OP(t, *ints))
 """
         prog = E.snippet(src, PACKED)
 
         from qvc.values import AtenOp
 
-        op = Obj(ExtClass("GenericAtenOverload", {"__call__": Builtin("op", lambda E2, self, *a, **k: generic_op(E2, *a, **k))}))
+        if isinstance(second, tuple):
+            # a real aten op (its model), so that a special-cased path that calls it on the payload can be followed
+            from qvc.tm_tensor import call_aten as _call_aten
+            op = Obj(ExtClass("AtenOverload", {"__call__": Builtin("op", lambda E2, self, *a, opname=opname, **k: _call_aten(E2, AtenOp(opname), list(a), k))}))
+        else:
+            op = Obj(ExtClass("GenericAtenOverload", {"__call__": Builtin("op", lambda E2, self, *a, **k: generic_op(E2, *a, **k))}))
         op.fields["overloadpacket"] = AtenOp(opname)
 
         def setup(E2, second=second):
             for c in dpos:
                 E2.assume(c)
+            if isinstance(second, tuple):
+                return [new_input(E2, "T", "uint8", ds), list(second[1:]), bits, op, False], {}
             return [new_input(E2, "T", "uint8", ds), new_input(E2, "O", "uint8", ds), bits, op, second == "packed"], {}
 
         res = E.explore(prog, setup, name="C04.dispatch")
@@ -359,6 +380,17 @@ def prog(t, other, bits, OP, pack_other):
             ok = isinstance(r.value, tuple) and isinstance(r.value[1], tuple) and r.value[1][0] == "OPRESULT"
             a = r.value[1][1] if ok else ()
             seen = {"kwargs": r.value[1][2]} if ok else {"kwargs": {}}
+            if isinstance(second, tuple):
+                got_t, ref_t = r.value[1] if isinstance(r.value[1], tuple) and len(r.value[1]) == 2 else (None, None)
+                okt = isinstance(got_t, STensor) and isinstance(ref_t, STensor) and len(got_t.shape) == len(ref_t.shape)
+                run.add(f"C04/dispatch-result-has-the-shape-of-the-op-on-unpacked-values[{tag}]", r.hyps, lib.shape_eq(got_t.shape, ref_t.shape) if okt else z3.BoolVal(False), "property", inst, replay=rpd)
+                if okt:
+                    E.ps["touched"] = []
+                    ids, inb = idx_vars("i", ref_t.shape)
+                    g_, w_ = got_t.elem(ids), ref_t.elem(ids)
+                    facts = value_bound_facts(E, bits)
+                    run.add(f"C04/dispatch-result-equals-the-op-on-unpacked-values[{tag}]", r.hyps + inb + facts, g_ == w_, "property", inst, replay=rpd)
+                continue
             structural = ok and len(a) == 2 and isinstance(a[0], STensor) and isinstance(a[1], STensor) and (second == "packed" or a[1].name == "O") \
                 and isinstance(seen["kwargs"].get("alpha"), STensor)
             run.add(f"C04/dispatch-calls-op-on-unpacked[{tag}]", r.hyps, z3.BoolVal(bool(structural)), "property", inst, replay=rpd)
@@ -684,6 +716,25 @@ def replay_dispatch(model, seed, inst):
         if extra:
             b = torch.cat([a, torch.zeros(extra, 3, dtype=torch.uint8)])
             cases.append((a, b))
+    if str(inst.get("second", "")).startswith("('ints'"):
+        import ast as _ast
+        ints = list(_ast.literal_eval(inst["second"]))[1:]
+        for rows in (1, 2, 3, 5, 8):
+            for cols in (1, 3):
+                a = torch.randint(0, top, (rows, cols), dtype=torch.uint8)
+                pa = PackedTensor.pack(a, bits)
+                op_ = {"select": torch.select, "slice": lambda t, d, s0, e0: torch.narrow(t, d, s0, e0 - s0), "narrow": torch.narrow}[inst["op"]]
+                try:
+                    want = op_(a, *ints)
+                except Exception:
+                    continue
+                try:
+                    got = op_(pa, *ints)
+                except Exception as e:
+                    return {"what": f"{inst['op']}{tuple(ints)} on a packed tensor raises {type(e).__name__}: {str(e)[:100]}", "shape": [rows, cols]}
+                if tuple(got.shape) != tuple(want.shape) or not torch.equal(got, want):
+                    return {"what": f"{inst['op']}{tuple(ints)} on a packed tensor differs from the op on the unpacked values", "shape": [rows, cols], "got": got.tolist(), "want": want.tolist()}
+        return None
     fns = {"equal": torch.equal, "some_other_op": lambda x, y: torch.equal(x, y)}
     fn = fns.get(inst.get("op"), torch.equal)
     for a, b in cases:
